@@ -12,6 +12,8 @@ import subprocess
 import sys
 
 ROOT = os.path.dirname(os.path.dirname(os.path.abspath(__file__)))
+MUT = os.environ.get("MUT_DIR", "/tmp/mut")          # where the sub-agents' worktrees and deliverables are
+PREFIX = os.environ.get("MUT_PREFIX", "")            # prefix of the ids under seeded/ (second round: R2_)
 ALL = ["C%02d" % i for i in range(1, 19)]
 
 
@@ -22,7 +24,7 @@ def sh(cmd, cwd=None, timeout=3600):
 
 
 def confirm(cid, k):
-    w, o = "/tmp/mut/%s" % cid, "/tmp/mut/%s-out" % cid
+    w, o = "%s/%s" % (MUT, cid), "%s/%s-out" % (MUT, cid)
     sh("git checkout -q -- . ; rm -rf tests", w)
     rc, out = sh("git apply %s/patch%s.diff" % (o, k), w)
     if rc != 0:
@@ -67,14 +69,14 @@ def run_checks(patch, props):
 def main():
     for item in sys.argv[1:]:
         cid, k = item.split(":")
-        o = "/tmp/mut/%s-out" % cid
-        d = os.path.join(ROOT, "seeded", "%s_%s" % (cid, k))
+        o = "%s/%s-out" % (MUT, cid)
+        d = os.path.join(ROOT, "seeded", "%s%s_%s" % (PREFIX, cid, k))
         print("=== %s change %s" % (cid, k), flush=True)
         conf = confirm(cid, k)
         print("   confirm:", json.dumps(conf)[:400], flush=True)
         if not conf.get("confirmed"):
             os.makedirs(os.path.join(ROOT, "seeded", "_rejected"), exist_ok=True)
-            json.dump(conf, open(os.path.join(ROOT, "seeded", "_rejected", "%s_%s.json" % (cid, k)), "w"), indent=1)
+            json.dump(conf, open(os.path.join(ROOT, "seeded", "_rejected", "%s%s_%s.json" % (PREFIX, cid, k)), "w"), indent=1)
             continue
         res = run_checks("%s/patch%s.diff" % (o, k), ALL)
         if "error" in res:
@@ -87,7 +89,7 @@ def main():
         shutil.copy("%s/demo%s.rs" % (o, k), d + "/demo.rs")
         metatxt = open("%s/meta%s.txt" % (o, k)).read() if os.path.exists("%s/meta%s.txt" % (o, k)) else ""
         meta = {
-            "id": "%s_%s" % (cid, k),
+            "id": "%s%s_%s" % (PREFIX, cid, k),
             "breaks_property": cid,
             "author": "fresh sub-agent given only the property text and a scratch worktree",
             "needs_to_manifest": metatxt,
